@@ -312,7 +312,7 @@ static const uint8_t SW_START = 255;
 static const uint32_t SW_AT_END = 0xffffffffu;
 struct Switch { uint8_t from; uint32_t idx; uint8_t to; };   // from = SW_START: who runs first; idx = SW_AT_END: when from's call returns
 struct Segment { std::vector<int> items; std::vector<Switch> script; unsigned den; int budget; std::vector<uint8_t> respawn; std::vector<uint64_t> focus; };
-struct Schedule { int clients; std::vector<Item> items; std::vector<Segment> segs; bool log_access = false; };
+struct Schedule { int clients; std::vector<Item> items; std::vector<Segment> segs; bool log_access = false; int clock_policy = 0; uint64_t clock_seed = 0; };
 
 using Respawns = std::vector<std::pair<uint32_t, uint8_t>>;      // (before the segment that holds item #first, restart client #second)
 static Schedule serial_schedule(const std::vector<Item> & items, const std::vector<int> & order, int clients, const Respawns & rs = Respawns())
@@ -375,6 +375,69 @@ static bool g_log_access = false;
 static std::vector<AccessRec> g_access;
 static const size_t ACCESS_PER_CALL = 96, ACCESS_TOTAL = 400000;
 static thread_local size_t tl_access_begin = 0;
+
+// ---- the clock (DESIGN 9.6): while a simulated call runs, time is what the simulator says it is -------------------
+#include <sys/syscall.h>
+#include <sys/time.h>
+#include <time.h>
+static uint64_t g_clock_queries = 0;
+static uint64_t g_sim_now_ns = 0, g_sim_elapsed_ns = 0;
+static int g_clock_policy = 0;                       // 0 steady, 1 jumpy
+static Rng g_clock_rng(0);
+static const uint64_t SIM_EPOCH_NS = 1700000000ull * 1000000000ull;
+static void sim_advance(bool per_call)
+  {
+  uint64_t step;
+  if (g_clock_policy == 0) step = per_call ? 10000 : 1000;
+  else if (per_call)
+    {
+    switch (g_clock_rng.below(6))
+      {
+      case 0: step = 1000 + g_clock_rng.below(100000); break;                       // microseconds
+      case 1: step = 1000000 + g_clock_rng.below(50000000); break;                  // milliseconds
+      case 2: step = 900000000ull + g_clock_rng.below(200000000ull); break;          // about a second
+      case 3: step = 1000000000ull * (1 + g_clock_rng.below(120)); break;            // seconds to minutes
+      case 4: step = 3600ull * 1000000000ull * (1 + g_clock_rng.below(48)); break;   // hours to days
+      default: step = 0; break;                                                      // time stands still
+      }
+    }
+  else step = g_clock_rng.below(2000000);
+  g_sim_now_ns += step; g_sim_elapsed_ns += step;
+  }
+static inline bool tl_in_call_fwd() { return tl_in_call; }
+extern "C"
+  {
+  int clock_gettime(clockid_t id, struct timespec * ts)
+    {
+    if (!tl_in_call_fwd()) return static_cast<int>(syscall(SYS_clock_gettime, id, ts));
+    ++g_clock_queries; sim_advance(false);
+    uint64_t t = g_sim_now_ns;
+    if (id != CLOCK_REALTIME && id != CLOCK_REALTIME_COARSE) t -= SIM_EPOCH_NS - 1000000000ull;     // monotonic-like clocks start near zero
+    ts->tv_sec = static_cast<time_t>(t / 1000000000ull); ts->tv_nsec = static_cast<long>(t % 1000000000ull);
+    return 0;
+    }
+  int gettimeofday(struct timeval * tv, void * tz)
+    {
+    if (!tl_in_call_fwd()) return static_cast<int>(syscall(SYS_gettimeofday, tv, tz));
+    ++g_clock_queries; sim_advance(false);
+    if (tv) { tv->tv_sec = static_cast<time_t>(g_sim_now_ns / 1000000000ull); tv->tv_usec = static_cast<suseconds_t>((g_sim_now_ns % 1000000000ull) / 1000); }
+    return 0;
+    }
+  time_t time(time_t * out)
+    {
+    time_t v;
+    if (!tl_in_call_fwd()) { struct timespec ts; syscall(SYS_clock_gettime, CLOCK_REALTIME, &ts); v = ts.tv_sec; }
+    else { ++g_clock_queries; sim_advance(false); v = static_cast<time_t>(g_sim_now_ns / 1000000000ull); }
+    if (out) *out = v;
+    return v;
+    }
+  clock_t clock(void)
+    {
+    if (!tl_in_call_fwd()) { struct timespec ts; syscall(SYS_clock_gettime, CLOCK_PROCESS_CPUTIME_ID, &ts); return static_cast<clock_t>(ts.tv_sec * CLOCKS_PER_SEC + ts.tv_nsec / (1000000000 / CLOCKS_PER_SEC)); }
+    ++g_clock_queries; sim_advance(false);
+    return static_cast<clock_t>((g_sim_now_ns - SIM_EPOCH_NS) / (1000000000ull / CLOCKS_PER_SEC));
+    }
+  }
 
 // ---- the one fault kind: allocation failure inside a library call (DESIGN 9.5) ----------------------------------
 static uint64_t g_alloc_in_calls = 0, g_alloc_failed = 0;
@@ -509,7 +572,7 @@ static Res call_once(const Item & it)
   int sig = sigsetjmp(tl_env, 1);
   if (sig == 0)
     {
-    tl_armed = 1; tl_yield_idx = 0; tl_access_begin = g_access.size(); tl_item = static_cast<int>(&it - g_items_base); tl_alloc_seen = 0; tl_alloc_fail_at = it.fail_alloc; tl_in_call = true;
+    tl_armed = 1; tl_yield_idx = 0; tl_access_begin = g_access.size(); tl_item = static_cast<int>(&it - g_items_base); tl_alloc_seen = 0; tl_alloc_fail_at = it.fail_alloc; sim_advance(true); tl_in_call = true;
     uint64_t v = g_ops[it.op].fn(it.a, it.b);
     tl_in_call = false; tl_armed = 0;
     r.status = 0; r.bits = v;
@@ -571,6 +634,7 @@ static void write_all(int fd, const void * p, size_t n)
     ++g_threads_started;
     }
   g_items_base = sc.items.data(); g_log_access = sc.log_access;
+  g_sim_now_ns = SIM_EPOCH_NS; g_sim_elapsed_ns = 0; g_clock_policy = sc.clock_policy; g_clock_rng = Rng(sc.clock_seed ^ 0x1f83d9abfb41bd6bull);
   g_fine.nclients = sc.clients; g_fine.scripted = scripted; g_fine.rng = Rng(sched_seed ^ 0x9e3779b97f4a7c15ull);
   std::vector<Res> out(sc.items.size(), Res{255, 0, 0});
   for (size_t si = 0; si < sc.segs.size(); ++si)
@@ -617,7 +681,7 @@ static void write_all(int fd, const void * p, size_t n)
     g_fine.active = false;
     for (int k : g.items) out[k] = g_slots[sc.items[k].client].res;
     }
-  uint64_t hdr[7] = {g_fine.trace.size(), g_fine.yields, g_fine.switches, g_threads_started, g_access.size(), g_alloc_in_calls, g_alloc_failed};
+  uint64_t hdr[9] = {g_fine.trace.size(), g_fine.yields, g_fine.switches, g_threads_started, g_access.size(), g_alloc_in_calls, g_alloc_failed, g_clock_queries, g_sim_elapsed_ns};
   write_all(fd, out.data(), out.size() * sizeof(Res));
   write_all(fd, hdr, sizeof hdr);
   if (!g_fine.trace.empty()) write_all(fd, g_fine.trace.data(), g_fine.trace.size() * sizeof(TraceRec));
@@ -627,7 +691,7 @@ static void write_all(int fd, const void * p, size_t n)
 
 // ---------------------------------------------------------------------------------------------
 // zygote side
-static uint64_t g_allocs_total = 0, g_alloc_failures_total = 0;
+static uint64_t g_allocs_total = 0, g_alloc_failures_total = 0, g_clock_queries_total = 0, g_sim_ns_total = 0;
 static uint64_t g_forks = 0, g_hung = 0, g_yields_total = 0, g_switches_total = 0, g_threads_total = 0, g_threads_max = 0;
 struct Outcome { std::vector<Res> res; std::vector<TraceRec> trace; std::vector<AccessRec> access; bool complete; uint64_t allocs = 0, alloc_failures = 0; };
 
@@ -659,7 +723,7 @@ static Outcome run_schedule(const Schedule & sc, bool scripted, uint64_t sched_s
   if (pid == 0) { close(pf[0]); child_execute(sc, scripted, sched_seed, pf[1]); }
   close(pf[1]);
   Outcome o; o.res.assign(sc.items.size(), Res{255, 0, 0}); o.complete = false;
-  uint64_t hdr[7] = {0, 0, 0, 0, 0, 0, 0};
+  uint64_t hdr[9] = {0, 0, 0, 0, 0, 0, 0, 0, 0};
   const int limit_ms = 10000;
   if (read_all(pf[0], o.res.data(), o.res.size() * sizeof(Res), limit_ms) && read_all(pf[0], hdr, sizeof hdr, limit_ms))
     {
@@ -667,6 +731,7 @@ static Outcome run_schedule(const Schedule & sc, bool scripted, uint64_t sched_s
     o.access.resize(hdr[4]);
     if ((hdr[0] == 0 || read_all(pf[0], o.trace.data(), hdr[0] * sizeof(TraceRec), limit_ms)) &&
         (hdr[4] == 0 || read_all(pf[0], o.access.data(), hdr[4] * sizeof(AccessRec), limit_ms))) o.complete = true;
+    g_clock_queries_total += hdr[7]; g_sim_ns_total += hdr[8];
     o.allocs = hdr[5]; o.alloc_failures = hdr[6]; g_allocs_total += hdr[5]; g_alloc_failures_total += hdr[6];
     g_yields_total += hdr[1]; g_switches_total += hdr[2]; g_threads_total += hdr[3]; if (hdr[3] > g_threads_max) g_threads_max = hdr[3];
     }
@@ -831,7 +896,7 @@ static std::string schedule_json(const Schedule & sc, int victim)
     s += "]";
     }
   if (!first_seg) s += ",\"repeat\":" + std::to_string(pending_repeat) + "}";
-  s += "],\"victim\":{\"segment\":" + std::to_string(vseg) + ",\"call\":" + std::to_string(vpos) + "}";
+  s += "],\"clock\":{\"policy\":" + std::to_string(sc.clock_policy) + ",\"seed\":" + std::to_string(sc.clock_seed) + "},\"victim\":{\"segment\":" + std::to_string(vseg) + ",\"call\":" + std::to_string(vpos) + "}";
   return s;
   }
 
@@ -937,6 +1002,7 @@ static void print_stats(const Stats & st, const char * mode, uint64_t seed0)
                   ",\"conflicting_call_pairs\":" + std::to_string(st.conflict_pairs) + ",\"conflicting_call_pairs_plain_access\":" + std::to_string(st.plain_conflict_pairs) + ",\"plans_with_conflicts\":" + std::to_string(st.plans_with_conflicts) +
                   ",\"directed_executions\":" + std::to_string(st.directed_execs) +
                   ",\"long_runs\":" + std::to_string(st.long_runs) + ",\"very_long_runs\":" + std::to_string(st.very_long_runs) + ",\"max_plan_len\":" + std::to_string(st.max_plan_len) +
+                  ",\"clock_queries_inside_library_calls\":" + std::to_string(g_clock_queries_total) + ",\"simulated_ns\":" + std::to_string(g_sim_ns_total) +
                   ",\"allocations_inside_library_calls\":" + std::to_string(g_allocs_total) + ",\"allocation_failures_injected\":" + std::to_string(g_alloc_failures_total) +
                   ",\"plans_with_allocations\":" + std::to_string(st.plans_with_allocations) + ",\"fault_injecting_executions\":" + std::to_string(st.fault_execs) +
                   ",\"hot_loop_runs\":" + std::to_string(st.hot_loop_runs) + ",\"crowd_runs\":" + std::to_string(st.crowd_runs) + ",\"churn_runs\":" + std::to_string(st.churn_runs) + ",\"planned_respawns\":" + std::to_string(st.respawns) +
@@ -969,7 +1035,8 @@ static int do_scan_serial(uint64_t seed0, uint64_t count, const char * hashfile,
     for (size_t i = 0; i < n; ++i) { fwd[i] = static_cast<int>(i); rev[i] = static_cast<int>(n - 1 - i); }
     Outcome oa = run_schedule(serial_schedule(p.items, fwd, p.clients, p.respawn), true, 0);
     std::vector<Res> ra = oa.res;
-    std::vector<Res> rb = run_serial(p.items, rev, p.clients, p.respawn);
+    Schedule srev = serial_schedule(p.items, rev, p.clients, p.respawn); srev.clock_policy = 1; srev.clock_seed = seed;
+    std::vector<Res> rb = run_schedule(srev, true, 0).res;
     account_plan(st, p, ra, seed, 2);
     if (oa.complete && oa.allocs > 0)
       {   // the library allocates: fail one request of one call per extra execution; a call may die, it must not return other bits
@@ -1018,7 +1085,10 @@ static int do_scan_serial(uint64_t seed0, uint64_t count, const char * hashfile,
       else if (rb[i].status != 255 && !same(rb[i], iso)) { for (int j = static_cast<int>(n) - 1; j >= i; --j) order.push_back(j); bad = true; }
       if (bad)
         {
-        if (report(seed, "serial", serial_schedule(p.items, order, p.clients, p.respawn), i, iso)) ++st.findings; else ++st.unstable;
+        Schedule fsch = serial_schedule(p.items, order, p.clients, p.respawn);
+        if (order.size() > 1 && order[0] > order[1]) { fsch.clock_policy = 1; fsch.clock_seed = seed; }
+        else if (order.size() == 1 && static_cast<size_t>(i) == n - 1 && n > 1) { fsch.clock_policy = 1; fsch.clock_seed = seed; }
+        if (report(seed, "serial", fsch, i, iso)) ++st.findings; else ++st.unstable;
         break;
         }
       }
@@ -1238,6 +1308,7 @@ static int do_exec()
     {
     char name[256]; unsigned c, f, t; long long idx; unsigned long long a, b; int x, y;
     if (sscanf(line, "clients %d", &sc.clients) == 1) continue;
+    { int cp; unsigned long long cs; if (sscanf(line, "clock %d %llu", &cp, &cs) == 2) { sc.clock_policy = cp; sc.clock_seed = cs; continue; } }
     if (strncmp(line, "seg", 3) == 0) { comp_to_exp.push_back(static_cast<int>(sc.segs.size())); Segment g; g.den = 0; g.budget = 0; g.respawn = pending_respawn; pending_respawn.clear(); sc.segs.push_back(g); continue; }
     if (sscanf(line, "respawn %u", &c) == 1) { pending_respawn.push_back(static_cast<uint8_t>(c)); continue; }
     int fa = 0;
